@@ -785,6 +785,12 @@ func (m *mappedFile) newCounter(name string) (v *atomic.Uint64, m1 *mappedFile, 
 }
 
 func (m *mappedFile) extend(end uint32) (*mappedFile, error) {
+	if r := round(end, pageSize); r < end {
+		// Rounding up wrapped around: end can only come from a corrupt
+		// allocation limit. Without this check the caller would remap and
+		// retry for ever.
+		return nil, errCorrupt
+	}
 	end = round(end, pageSize)
 	info, err := m.f.Stat()
 	if err != nil {
